@@ -39,6 +39,9 @@ func quotient(root map[string]any, at any, args ...any) any {
 			case isFloat:
 				fq /= float64(ii)
 			default:
+				if ii == 0 {
+					panic(fmt.Errorf("quotient divide by zero"))
+				}
 				iq /= ii
 			}
 		case float32, float64:
